@@ -253,6 +253,10 @@ def run_qubit(case, ctx):
             continue   # plain QubitOperator arithmetic is openfermion's code
         if opname in ("a+s", "s+a", "a-s"):
             continue   # openfermion QubitOperator does not define scalar addition
+        if opname in ("a+=b", "a-=b", "a*=b") and ia == ib:
+            # x += x and friends run entirely inside openfermion's SymbolicOperator (it iterates the dict it is modifying): not Tangelo's code
+            ctx.note("inplace_on_itself_skipped")
+            continue
         log.append([opname, ia, ib, s])
         wit = lambda: {"pool": [[k, [[list(map(list, t)), c] for t, c in pt.items()]] for k, pt in zip(kinds, pool_terms)],
                        "attrs": attrs, "log": log}
